@@ -2110,6 +2110,15 @@ class _SymMini(Mini):
             super()._plain(v, where)
 
     def _py(self, f, *a, **k):
+        if getattr(f, "__name__", "") == "join" and isinstance(getattr(f, "__self__", None), bytes) and f.__self__ == b"" and len(a) == 1 and not k:
+            # `glue = b"".join ... glue(parts)`: the early-bound join of the empty separator - the same concatenation as `b"".join(parts)`
+            parts = a[0] if isinstance(a[0], (list, tuple)) else self._iter(a[0], ast.Constant(value=None))
+            if any(isinstance(x, _SymBytes) for x in parts):
+                out = _SymBytes([])
+                for x in parts:
+                    out = out + x
+                return out
+            a = (parts,)
         try:
             return f(*a, **k)
         except (MiniUndecided, MiniRaised, _Ret, _Brk, _Cont):
